@@ -49,3 +49,14 @@ Theorem C10_close_last : forall s c ch, reachable s -> nth_error (chans s) c = S
               ((exists p, un ch = UPush p) \/ un ch = UCloseCh \/ un ch = UEnd).
 Proof. exact close_last. Qed.
 Print Assumptions C10_close_last.
+
+(* ---- tie by translation (gen/SrcFrame.v regenerated from pkg/frame on every run) ---- the buffer
+   the frame reader hands to the transport holds a whole UDP datagram, so that what arrives in one
+   datagram is one chunk of the byte stream the theorems above speak about (finding F13: with the
+   former 512-byte buffer the rest of a longer datagram was discarded) *)
+From Coq Require Import ZArith.
+From GM Require Import SrcFrame SrcFrameTie.
+Theorem C10_source_read_buffer_holds_a_datagram :
+  (65507 <= c_frame_readBufferSize /\ c_frame_readBufferSize = a_frame_Reader_Initialize_NewReaderSize)%Z.
+Proof. exact src_read_buffer. Qed.
+Print Assumptions C10_source_read_buffer_holds_a_datagram.
